@@ -15,6 +15,10 @@ func TestGovcReplay(t *testing.T) {
 	m := govcLoadModel()
 	s := m.Str("in:s")
 	mode := Mode(m.Int("in:mode"))
+	if _, has := m.find("in:s"); !has {
+		// no model (the failed obligation involves uninterpreted rune conversions): registered witness
+		s, mode = "-x\xffabc", SingleDash
+	}
 	pairs, is := isOption(s, mode, false)
 	t.Logf("input s=%q mode=%d -> pairs=%#v is=%v", s, mode, pairs, is)
 	bad := ""
